@@ -154,6 +154,10 @@ void PositiveVisitor::bvisit(const Add &x)
         can_be_false = false;
     } else if (coef->is_negative()) {
         can_be_true = false;
+    } else if (not coef->is_zero()) {
+        // non-real (or NaN) constant term: nothing can be said
+        can_be_true = false;
+        can_be_false = false;
     }
     NegativeVisitor neg_visitor(assumptions_);
     for (const auto &p : dict) {
